@@ -6,7 +6,7 @@ Metamorphic oracles between runs of the same build (no model):
  sort     : --sort-by E  ==  --sort-by /c/ after --select E=c   (and with DESC);
  group    : --group-by E ==  --group-by /c/ after --select E=c;
  split    : elements printed by --split-by E == the arrays of column E, flattened;
- macro    : --set @m=E --select @m  ==  --select E;
+ macro    : --set @m=E --select @m  ==  --select E; the records in the opposite order give the same values in the opposite order;
  cache    : outputs under --regular-expression-cache-size 0, 1, 2, 64 over (subject, pattern) histories are identical.
 """
 from .. import core, exprgen as eg, jsonmodel as jm
@@ -259,10 +259,19 @@ def run_unit(ctx, unit):
     elif mode == "macro":
         obs = run([core.Case(pre + ["--select=" + e + "=c"], data), core.Case(pre + ["--set", "@mm=" + e, "--select", "@mm=c"], data),
                    core.Case(pre + ["--select", "(define \"mm\" %s @mm)=c" % e], data),
-                   core.Case(pre + ["--select", ".=first", "--select=" + e + "=c"], data)])
+                   core.Case(pre + ["--select", ".=first", "--select=" + e + "=c"], data)] +
+                  # the records in the opposite order: what a record evaluates to does not depend on the records before it
+                  ([core.Case(pre + ["--select=" + e + "=c"], b"\n".join(reversed(data.split(b"\n"))))] if not any(a.startswith("--split-by") for a in pre) else []))
         if obs is None:
             return
         st.count("conclusive")
+        if len(obs) > 4:
+            st.count("record_order_comparisons")
+            fwd, rev = rows_of(obs[0]), rows_of(obs[4])
+            if [jm.dumps(r) for r in fwd] != [jm.dumps(r) for r in reversed(rev)]:
+                bad("depends-on-earlier-records", "the expression evaluates differently for a record when the records arrive in the opposite order",
+                    {"expr": e, "pre": pre, "forward": obs[0].stdout[:500], "reversed": obs[4].stdout[:500]})
+                return
         later = [dict((k, v) for k, v in r.items() if k != "first") for r in rows_of(obs[3])]
         if [jm.dumps(r) for r in later] != [jm.dumps(r) for r in rows_of(obs[0])]:
             bad("select-position", "the expression evaluates differently in a --select that follows another --select",
@@ -288,7 +297,7 @@ def worker(ctx):
         st.count("units")
         st.count("mode_" + unit["mode"])
         if i < 3 and ctx.idx == 0:
-            st.sample({k: (v[:150].decode() if isinstance(v, bytes) else v) for k, v in unit.items() if k != "funcs"})
+            st.sample({k: (v[:150].decode("utf-8", "replace") if isinstance(v, bytes) else v) for k, v in unit.items() if k != "funcs"})
 
 
 def run(env):
